@@ -349,6 +349,12 @@ def write_evidence(prop_id, mod, tier, seed, shards, wall, violations, known_hit
     }
     if notes:
         cov["notes"] = notes
+    extra = getattr(mod, "evidence_extra", None)
+    if extra is not None:
+        try:
+            cov.update(extra(dict(classes)))
+        except Exception as e:   # never let reporting sugar break a check
+            cov["evidence_extra_error"] = repr(e)
     ev = {
         "property_id": prop_id, "tier": tier, "seed": int(seed), "level": mod.LEVEL,
         "coverage": cov, "assumptions": list(mod.ASSUMPTIONS), "wall_s": round(wall, 2),
